@@ -95,17 +95,23 @@ static unsigned long argval(const char *s) {
     return strtoul(s, NULL, 0);
 }
 
-static void report_fds(void) {
-    char line[8192];
+static char fdline[8192];
+static void report_fds_to(const char *path);
+static void report_fds(void) { report_fds_to(NULL); }
+static void report_fds_to(const char *path) {
+    char *line = fdline;
     int off = 0;
-    off += snprintf(line + off, sizeof line - off, "fds");
-    for (int fd = 0; fd < 1024 && off < (int)sizeof line - 64; fd++) {
+    off += snprintf(line + off, sizeof fdline - off, "fds");
+    for (int fd = 0; fd < 1024 && off < (int)sizeof fdline - 64; fd++) {
         struct stat st;
         if (fstat(fd, &st) != 0) continue;
         int fl = fcntl(fd, F_GETFD);
-        off += snprintf(line + off, sizeof line - off, " %d:%lu.%lu:%d", fd, (unsigned long)st.st_dev, (unsigned long)st.st_ino, fl & FD_CLOEXEC);
+        off += snprintf(line + off, sizeof fdline - off, " %d:%lu.%lu:%d", fd, (unsigned long)st.st_dev, (unsigned long)st.st_ino, fl & FD_CLOEXEC);
     }
-    say("%s\n", line);
+    if (!path) { say("%s\n", line); return; }
+    /* the table was collected before this descriptor exists */
+    int o = open(path, O_WRONLY | O_CREAT | O_APPEND, 0644);
+    if (o >= 0) { dprintf(o, "%s\n", line); close(o); }
 }
 
 static void report_creds(void) {
@@ -306,7 +312,7 @@ static void run(int from, int to) {
             dprintf(2, "out %ld wrote=%ld err=%d\n", n, done, fails);
         }
         else if (!strcmp(c, "report")) {
-            if (!strcmp(a[1], "fds")) report_fds();
+            if (!strcmp(a[1], "fds")) { if (na > 2) report_fds_to(a[2]); else report_fds(); }
             else if (!strcmp(a[1], "creds")) report_creds();
             else if (!strcmp(a[1], "sec")) report_sec();
             else if (!strcmp(a[1], "rlimits")) report_rlimits();
